@@ -454,10 +454,16 @@ def m_enumerate(ex, a, m):
     return IterV(gen())
 @model_rx(r'^<.* as Iterator>::skip$')
 def m_skip(ex, a, m):
-    src, n = a[0], pyint(ex, a[1])
+    src, n = a[0], a[1]
+    nn = n.concrete()
     def gen():
-        for _ in range(n):
+        k = 0
+        while True:          # a symbolic count is decided element by element (n > k?), so the forks are bounded by the length of the source
+            if nn is not None:
+                if k >= nn: break
+            elif not ex.branch_bool(Bool(z3.UGT(n.bv, k))): break
             if iter_next(ex, src) is None: return
+            k += 1
         while True:
             x = iter_next(ex, src)
             if x is None: return
